@@ -356,8 +356,18 @@ _MANAGED = [("_common", "parent_parser", None), ("_common", "lenient_check", Fal
             ("_typehints", "allow_default_instance", False), ("_util", "current_path_dir", None)]
 
 
-def observe(P: dict, cwd0: str) -> dict:
-    """the residual state, observed from outside (alpha)."""
+def _linked_targets(P: dict) -> str:
+    out = []
+    for name, q in sorted(P.items()):
+        for a in q._actions:
+            lt = getattr(a, "sub_add_kwargs", None)
+            if isinstance(lt, dict) and "linked_targets" in lt:
+                out.append(f"{name}:{a.dest}:{sorted(lt['linked_targets'])}")
+    return ";".join(out)
+
+
+def observe(P: dict, cwd0: str, base: Optional[dict] = None) -> dict:
+    """the residual state, observed from outside (alpha).  base: the observation made right after the parsers were built."""
     pend, args, shtab = {}, {}, {}
     for name, q in P.items():
         if "." not in name:
@@ -394,12 +404,20 @@ def observe(P: dict, cwd0: str) -> dict:
         bad.append("cwd")
     if argparse.Namespace is not _STD_NAMESPACE:
         bad.append("argparse.Namespace")
+    nact = {n: len(q._actions) for n, q in P.items()}
+    links = _linked_targets(P)
+    if base is not None:
+        # Alg: the only action ever added after construction is --print_shtab on a root parser; linked_targets of the
+        # class-typed actions are written by link_arguments only
+        if any(nact[n] != base["nact"][n] + (1 if shtab.get(n) and not base["shtab"].get(n) else 0) for n in nact):
+            bad.append("n_actions")
+        if links != base["links"]:
+            bad.append("linked_targets")
     return {"pending": pend, "args": args, "shtab": shtab,
             "pk": "n/a" if pk is None else ("unset" if not pkv else kw_code(pkv.get("env"), pkv.get("defaults"))),
             "sap": "n/a" if sap is None else sapname,
             "dk": "n/a" if dk is None else ("unset" if not dkv else ",".join(f"{k}={dkv[k]}" for k in sorted(dkv))),
-            "managed": not bad, "leaked": ",".join(sorted(bad)),
-            "nact": {n: len(q._actions) for n, q in P.items()}}
+            "managed": not bad, "leaked": ",".join(sorted(bad)), "nact": nact, "links": links}
 
 
 # ------------------------------------------------------------------------------------------------ executing a history (forked child)
@@ -427,10 +445,10 @@ def run_history(task: dict) -> dict:
         probes = task.get("probe") or [True] * len(task["calls"])
         for c, probe in zip(task["calls"], probes):
             reused = run_call(c, P[c["p"]], d)
-            post = observe(P, d)
+            post = observe(P, d, init)
             if probe:
                 fresh = contextvars.copy_context().run(lambda: run_call(c, build(c["p"])[c["p"]], d))
-                post2 = observe(P, d)
+                post2 = observe(P, d, init)
                 clean = {k: post2[k] for k in ("pending", "pk", "sap", "dk", "managed")} == {k: post[k] for k in ("pending", "pk", "sap", "dk", "managed")}
             else:  # a positioning step of a tour: its transition is probed elsewhere
                 fresh, clean = None, True
